@@ -227,7 +227,24 @@ def check_revalidation(ctx):
     ctx.ob("C02.P1", dec.qualname, ok, "decoded numbers are stored through the validating set()" if ok else "decode bypasses set()", where=dec.where)
 
 
+def check_decoders(ctx):
+    """Every valid body is decoded to the value it denotes: the decode side of the payload codecs against the same
+    reference models C01 uses (a non-zero boolean byte is true, element i comes from its own bytes, ...)."""
+    from . import c01
+
+    repo = ctx.repo
+    n = 0
+    for rule, cname, meth, what in c01.CODEC_RULES:
+        if meth != "decode":
+            continue
+        f = repo.method(cname, meth, inherited=False)
+        _codec.agree(ctx, "C02.P2", f, c01.REF[f"{cname}.{meth}"], what, params=_codec.decode_params(), key_prefix=f"{meth}-")
+        n += 1
+    ctx.floor("payload decoders compared with their reference model", n, 6)
+
+
 def run(ctx):
+    check_decoders(ctx)
     _items.check_header_decode(ctx, "C02.B2", "Base", "decode_item_header", "variables")
     check_dynamic(ctx)
     n = _items.check_numeric_table(ctx, "C02.T2", NUMERIC, VAR_ATTRS)
